@@ -331,7 +331,16 @@ func (e *Env) build(op *Op) (*Built, string) {
 		} else if op.N == 2 {
 			acc = "cosmos:other-chain:" + a.AddrS
 		}
-		return &Built{Msgs: []sdk.Msg{didtypes.NewMsgUpdatePaymentAddress(a.AddrS, acc, who.Did)}, Signer: a}, ""
+		did := who.Did
+		switch op.Mode { // DID-URL spellings of the same key DID
+		case "frag":
+			did += "#" + strings.TrimPrefix(who.Did, "did:key:")
+		case "query":
+			did += "?versionId=1"
+		case "path":
+			did += "/x"
+		}
+		return &Built{Msgs: []sdk.Msg{didtypes.NewMsgUpdatePaymentAddress(a.AddrS, acc, did)}, Signer: a}, ""
 	case "send":
 		to := e.ref(op.To, nil)
 		if to == nil {
